@@ -509,12 +509,16 @@ fn magic_cases(recvs: &[Recv], r: &Recv, rng: &mut Rng, prop: &str, _iter: usize
     let mut e = eg.element(rng, r, &mut mistakes);
     let rendered = elem::render(&mut e, rng.below(6) as u8);
     let mut expected = it.element_full(r, &e, &rendered.attr_texts, &rendered.text);
-    // a newtype wrapper's own `supports(..)` is judged before it delegates: a shape it does not
-    // admit is the whole answer
+    // a newtype wrapper's own `supports(..)` is judged as well: a shape it does not admit is one more
+    // mistake, reported together with what the inner receiver finds (C02: none is dropped because
+    // another was found first), as a receiver with named fields does
     if let Some(w) = WRAPPER.with(|w| w.get()) {
         if let (Some(words), elem::Element::Item(i)) = (&recvs[w].supports, &e) {
-            let extra = it.supports_item(words, &i.body);
+            let mut extra = it.supports_item(words, &i.body);
             if !extra.is_empty() {
+                if let Outcome::Err(inner) = &expected {
+                    extra.extend(inner.iter().cloned());
+                }
                 expected = Outcome::Err(extra);
             }
         }
